@@ -124,7 +124,7 @@ func (e *txEval) checkDelivery(c *Ctx) {
 		}
 		txid := *cb.Tx.Tx.TxHash()
 		seen[txid]++
-		if !refRelevant(cb.Tx.Tx, e.subs) {
+		if (e.tr.sc.rel == nil && !refRelevant(cb.Tx.Tx, e.subs)) || (e.tr.sc.rel != nil && !e.tr.sc.rel(cb.Tx.Tx)) {
 			c.Violate("irrelevant-delivered", "HandleTx", "transaction %s matches no subscription but was delivered as new at t=%v", shortHash(txid), cb.At)
 		}
 		if len(cb.Tx.Outputs) != len(cb.Tx.Tx.TxIn) {
@@ -580,6 +580,9 @@ func confirmedKind(s client.TxState) string {
 // runTxCheck is the common body of the transaction-level checks.
 func runTxCheck(c *Ctx, o txGenOpts, eval func(e *txEval)) {
 	ns := NewNodeSim(c)
+	if o.prepare != nil {
+		o.prepare(ns)
+	}
 	sc := genTxScenario(c, ns.TxW, o)
 	tr := newTxRun(c, sc, ns)
 	c.Res.Summary = sc.String()
